@@ -192,6 +192,10 @@ def check_bay_mass(case, ctx):
     n0 = 3 * m * n
     h = float(sum(case['lam']['plyts']))
     mass = case['mu'] * h * case['a'] * case['b']
+    pp = case.get('panel_plyt')
+    if pp:
+        ctx.label('skin:strips-of-different-thickness')
+        mass = sum(case['mu'] * h * pp[k % len(pp)] * case['a'] * (y2 - y1) for k, (y1, y2) in enumerate(zip(case['cuts'][:-1], case['cuts'][1:])))
     for s, sc in zip(stiffs, case['stiffeners']):
         mu_s = sc.get('mu') if sc.get('mu') is not None else case['mu']
         hs = float(sum(sc['lam']['plyts']))
@@ -239,6 +243,12 @@ def _baymass_strategy(draw, tier='quick'):
     for sc in case['stiffeners']:
         if sc['kind'] == 'blade2d':
             sc['base'] = sc.get('base', False)
+    if len(case['cuts']) > 2 and draw(st.booleans()):
+        L = case['lam']
+        L['plyts'] = [L['plyts'][0]] * len(L['plyts'])
+        L['laminaprops'] = [L['laminaprops'][0]] * len(L['laminaprops'])
+        L['uniform'] = True
+        case['panel_plyt'] = [draw(st.sampled_from([1., 2., 0.5, 3.])) for _ in range(len(case['cuts']) - 1)]
     return case
 
 
